@@ -495,7 +495,11 @@ class Ctx:
         }
         if self.exhaustive is not None:
             cov["exhaustive"] = self.exhaustive
-        cov.update(self.extra)
+        extra = dict(self.extra)
+        if "exhaustive" in extra and not isinstance(extra["exhaustive"], bool):
+            # the schema reserves coverage.exhaustive for a boolean; a description goes under its own key
+            extra["exhaustive_scope"] = extra.pop("exhaustive")
+        cov.update(extra)
         ev = {
             "property_id": self.prop,
             "tier": self.tier,
